@@ -3,6 +3,8 @@ import MotoModel.Model.LineTools
 import MotoModel.Spec.LineTools
 import MotoModel.Model.Tape
 import MotoModel.Spec.K7
+import MotoModel.Model.DiskCli
+import MotoModel.Spec.Dos
 open Moto
 
 def hexVal (c : Char) : Nat :=
@@ -105,11 +107,89 @@ def handle (args : List String) : String :=
   | ["conv.tolisting", d, b] => hex (toListing (d == "1") (unhex b))
   | _ => "bad-op"
 
+/-- `status|out text|mkdirs|writes`; big contents go to files `<prefix>.<k>` -/
+def showDiskOutcome (o : Tape.Outcome) (prefixPath : String) : String × List (String × List Nat) :=
+  let text := o.out.foldl (· ++ ·) []
+  if text.contains 0 then ("unmodelled", []) else
+  let files := (List.range o.writes.length).map fun k => (prefixPath ++ "." ++ toString k, (o.writes.getD k ([], [])).2)
+  let ws := (List.range o.writes.length).map fun k => cp (o.writes.getD k ([], [])).1 ++ ">@" ++ prefixPath ++ "." ++ toString k
+  (showStatus o.status ++ "|" ++ cp text ++ "|" ++ ";".intercalate (o.mkdirs.map cp) ++ "|" ++ ";".intercalate ws, files)
+
+def flavourOf (s : String) : Disk.Flavour := if s == "sd" then .sd else .fd
+
+def sideOfRaw (fl : Disk.Flavour) (raw : List Nat) (i : Nat) : Spec.Dos.Side :=
+  Disk.sectorsOf fl Disk.sectorsPerSide (raw.drop (i * Disk.sizeOfSide fl))
+
+def showDFile (f : Spec.Dos.DFile) (prefixPath : String) (k : Nat) : String × (String × List Nat) :=
+  (s!"{f.slot},{hex f.name},{hex f.ext},{f.kind},{f.flag},{cp f.chain},{f.lastSectors},{f.lastBytes},@{prefixPath}.{k}",
+   (prefixPath ++ "." ++ toString k, f.content))
+
+def afilesOf (blob : String → List Nat) : Nat → List String → List Spec.Dos.AFile × List String
+  | 0, rest => ([], rest)
+  | n + 1, slot :: name :: ext :: kind :: flag :: chain :: ls :: lb :: content :: rest =>
+    let (fs, r) := afilesOf blob n rest
+    (⟨slot.toNat!, unhex name, unhex ext, kind.toNat!, flag.toNat!, uncp chain, ls.toNat!, lb.toNat!, blob content⟩ :: fs, r)
+  | _, rest => ([], rest)
+
+def deletedOf : Nat → List String → List (Nat × List Nat) × List String
+  | 0, rest => ([], rest)
+  | n + 1, slot :: raw :: rest => let (ds, r) := deletedOf n rest; ((slot.toNat!, unhex raw) :: ds, r)
+  | _, rest => ([], rest)
+
+def handleDisk (blob : String → List Nat) (args : List String) : String × List (String × List Nat) :=
+  match args with
+  | "disk.create" :: fl :: v :: archive :: outp :: n :: rest =>
+      let srcs := (rest.take n.toNat!).map uncp
+      let w := (worldOf' (rest.drop n.toNat!))
+      showDiskOutcome (Disk.create (flavourOf fl) (lookupWorld w) (v == "v") (uncp archive) srcs) outp
+  | "disk.add" :: fl :: v :: archive :: pre :: outp :: n :: rest =>
+      let srcs := (rest.take n.toNat!).map uncp
+      let w := (worldOf' (rest.drop n.toNat!))
+      showDiskOutcome (Disk.add (flavourOf fl) (lookupWorld w) (v == "v") (uncp archive) (blob pre) srcs) outp
+  | ["disk.list", fl, v, pre] => showDiskOutcome (Disk.list (flavourOf fl) (v == "v") (blob pre)) "/dev/null"
+  | ["disk.extract", fl, v, archive, into, pre, outp] =>
+      showDiskOutcome (Disk.extract (flavourOf fl) (v == "v") (uncp archive) (if into == "~" then none else some (uncp into)) (blob pre)) outp
+  | ["disk.setpayload", sec, v] => (hex (Disk.setPayload (blob sec) (blob v)), [])
+  | ["dos.fsck", fl, strict, pre, i] => (toString (Spec.Dos.fsck (strict == "1") (sideOfRaw (flavourOf fl) (blob pre) i.toNat!)), [])
+  | ["dos.files", fl, pre, i, outp] =>
+      match Spec.Dos.files (sideOfRaw (flavourOf fl) (blob pre) i.toNat!) with
+      | none => ("none", [])
+      | some fs =>
+        let rows := (List.range fs.length).map fun k => showDFile (fs.getD k default) outp k
+        (";".intercalate (rows.map (·.1)), rows.map (·.2))
+  | "dos.render" :: outp :: filler :: tail :: recPad :: byte0 :: reserved :: nf :: rest =>
+      let (fs, rest) := afilesOf blob nf.toNat! rest
+      let (ds, _) := match rest with
+        | nd :: r => deletedOf nd.toNat! r
+        | [] => ([], [])
+      let a : Spec.Dos.ASide := ⟨fs, ds, uncp reserved, filler.toNat!, tail.toNat!, recPad.toNat!, byte0.toNat!⟩
+      ("ok", [(outp, (Spec.Dos.render a).flatten)])
+  | _ => ("bad-op", [])
+where
+  worldOf' : List String → List (Str × Option Bytes)
+    | p :: c :: rest => (uncp p, if c == "missing" then none else some (blob c)) :: worldOf' rest
+    | _ => []
+
+def toBytes (l : List Nat) : ByteArray := ByteArray.mk (l.map UInt8.ofNat).toArray
+
 partial def loop (h : IO.FS.Stream) (out : IO.FS.Stream) : IO Unit := do
   let line ← h.getLine
   if line.isEmpty then return ()
   let l := String.ofList (line.toList.filter (fun c => c != (Char.ofNat 10) && c != (Char.ofNat 13)))
-  out.putStrLn (handle (l.splitOn " "))
+  let args := l.splitOn " "
+  -- arguments of the form @path are byte strings read from files
+  let mut blobs : List (String × List Nat) := []
+  for a in args do
+    if a.startsWith "@" && !(blobs.any (·.1 == a)) then
+      let data ← IO.FS.readBinFile (a.drop 1).toString
+      blobs := (a, data.toList.map (·.toNat)) :: blobs
+  let blob := fun (a : String) => if a.startsWith "@" then (match blobs.find? (·.1 == a) with | some (_, d) => d | none => []) else unhex a
+  let cmd := args.headD ""
+  let (ans, files) := if cmd.startsWith "disk." || cmd.startsWith "dos." then handleDisk blob args else (handle args, [])
+  for (p, d) in files do
+    if p != "/dev/null" && !p.startsWith "/dev/null." then IO.FS.writeBinFile p (toBytes d)
+  out.putStrLn ans
+  out.flush
   loop h out
 
 def main : IO Unit := do
